@@ -129,6 +129,19 @@ pub async fn outcome_raw(kind: &str, reply_of: impl Fn(&str) -> Vec<u8>) -> Stri
 // ---------------------------------------------------------------------------------------------
 // reply grammar
 
+/// Junos / look-alike vocabulary that is not a positive indication of any operation modelled here
+pub const JUNK_NAMES: [&str; 9] = [
+    "load-success",
+    "success",
+    "load-ok",
+    "OK",
+    "okay",
+    "ok-x",
+    "commit-success",
+    "x:ok xmlns:x=\"urn:example:x\"",
+    "ok xmlns=\"urn:example:other\"",
+];
+
 #[derive(Clone, Debug)]
 pub enum Child {
     Ok,
@@ -143,6 +156,8 @@ pub enum Child {
     Count(usize),
     Comment,
     Junk,
+    /// an element outside the grammar whose NAME sounds like a positive indication (`JUNK_NAMES`)
+    JunkNamed(usize),
     Results(Vec<Child>),
     /// an element the reply grammar does not know (`<commit-results>`, `<results>` …) wrapped around
     /// children of the grammar
@@ -159,6 +174,7 @@ impl Child {
             Child::Count(k) => format!("c{k}"),
             Child::Comment => "cmt".into(),
             Child::Junk => "junk".into(),
+            Child::JunkNamed(i) => format!("junk.{i}"),
             Child::Wrap(n, cs) => format!(
                 "W:{n}:{}",
                 if cs.is_empty() { "_".into() } else { cs.iter().map(|c| c.token()).collect::<Vec<_>>().join("+") }
@@ -207,6 +223,7 @@ impl Child {
             Child::Count(k) => format!("<load-error-count>{k}</load-error-count>"),
             Child::Comment => "<!-- c -->".into(),
             Child::Junk => "<unexpected-element/>".into(),
+            Child::JunkNamed(i) => format!("<{}/>", JUNK_NAMES[*i % JUNK_NAMES.len()]),
             Child::Wrap(n, cs) => format!("<{n}>{}</{n}>", cs.iter().map(|c| c.xml()).collect::<String>()),
             Child::Results(cs) => format!(
                 "<load-configuration-results>{}</load-configuration-results>",
@@ -371,6 +388,37 @@ pub fn gen_docs(kind: &str, opts: &Opts, rng: &mut Rng) -> Vec<Vec<Child>> {
             }
         }
     }
+    // elements that merely SOUND positive (Junos vocabulary of other replies, look-alikes, `ok` in a
+    // foreign namespace), alone, after an error, after a warning, before the real indication
+    {
+        let a = alphabet(rng);
+        let (err_e, err_w) = (a[1].clone(), a[2].clone());
+        for i in 0..JUNK_NAMES.len() {
+            let j = Child::JunkNamed(i);
+            for pre in [vec![], vec![err_e.clone()], vec![err_w.clone()], vec![err_w.clone(), err_e.clone()]] {
+                let mut inner = pre.clone();
+                inner.push(j.clone());
+                if kind == "load" {
+                    docs.push(vec![Child::Results(inner.clone())]);
+                    let mut i2 = inner.clone();
+                    i2.push(Child::Ok);
+                    docs.push(vec![Child::Results(i2)]);
+                    let mut d = pre.clone();
+                    d.push(Child::Results(vec![j.clone()]));
+                    docs.push(d);
+                } else {
+                    docs.push(inner.clone());
+                    let mut d = inner.clone();
+                    match kind {
+                        "empty" => d.push(Child::Ok),
+                        "data" => d.push(Child::Data("<configuration><a>1</a></configuration>")),
+                        _ => {}
+                    }
+                    docs.push(d);
+                }
+            }
+        }
+    }
     // many rpc-errors (limits on how many are kept): n warnings, then one of severity error, then the
     // positive indication — success would hide the error
     let a = alphabet(rng);
@@ -405,6 +453,7 @@ fn parse_token(t: &str) -> Option<Child> {
         "data" => Child::Data("<configuration><a>1</a></configuration>"),
         "cmt" => Child::Comment,
         "junk" => Child::Junk,
+        _ if t.starts_with("junk.") => Child::JunkNamed(t[5..].parse().ok()?),
         _ if t.starts_with("e:") => {
             let f: Vec<&str> = t[2..].split('/').collect();
             if f.len() != 3 {
